@@ -320,6 +320,11 @@ class Response:
             f'text/html; charset={self.encoding}',
         )
 
+        if self.status < 200 or self.status in (204, 205, 304):
+            # These responses never include a message body (RFC 7230 3.3.3).
+            self.body = []
+            self.stream = False
+
         cLength = None
         if self.body is not None:
             if isinstance(self.body, bytes):
